@@ -287,6 +287,11 @@ def _concrete_binop(rt, interp, opn, a, b, node):
             except Exception:
                 interp.raise_py("TypeError", "format")
         return interp.ctx.fresh_str("fmt")
+    if opn == "BitOr" and isinstance(a, (PDict, dict)) and isinstance(b, (PDict, dict)):
+        out = a.copy() if isinstance(a, PDict) else PDict(list(a.items()))
+        for k_, v_ in (b.pairs if isinstance(b, PDict) else b.items()):
+            rt.setitem(interp, out, k_, v_)
+        return out
     if isinstance(a, (PDict, PSet, GenResult)) or isinstance(b, (PDict, PSet, GenResult)):
         raise Undecided("operator %s on containers" % opn)
     try:
@@ -445,7 +450,19 @@ def _minmax(which):
     def fn(interp, args, kwargs):
         items = interp.iterate(args[0]) if len(args) == 1 else list(args)
         if not items:
+            if "default" in kwargs and len(args) == 1:
+                return kwargs["default"]
             interp.raise_py("ValueError", "empty sequence")
+        key = kwargs.get("key")
+        if key is not None:
+            # the first element with the smallest / largest key (ties keep the earlier one, as CPython does)
+            keys = [interp.call(key, [x], {}) for x in items]
+            best, bk = items[0], keys[0]
+            for x, kx in zip(items[1:], keys[1:]):
+                lt = order(interp.rt, interp, ast.Lt(), kx, bk) if which == "min" else order(interp.rt, interp, ast.Lt(), bk, kx)
+                if interp.truth(lt):
+                    best, bk = x, kx
+            return best
         if all(isinstance(x, (int, float)) for x in items):
             return min(items) if which == "min" else max(items)
         best = items[0]
@@ -638,9 +655,10 @@ def _getattr(interp, args, kwargs):
 
 def _zip(interp, args, kwargs):
     # (collected eagerly; zip, enumerate, reversed, map, filter give single-pass iterators)
-    if kwargs.get("strict"):
-        raise Undecided("zip(strict=True)")
     lists = [interp.iterate(a) for a in args]
+    if kwargs.get("strict") and len({len(x) for x in lists}) > 1:
+        # (raised when the shorter argument runs out: collected eagerly, the pairs before it are not handed out)
+        interp.raise_py("ValueError", "zip() argument 2 is %s than argument 1" % ("shorter" if len(lists[1]) < len(lists[0]) else "longer"))
     return GenResult([tuple(xs) for xs in zip(*lists)])
 
 
@@ -875,7 +893,8 @@ def _str_method(rt, interp, s, name):
         if name == "join":
             return Builtin("str.join", join)
         if name in ("startswith", "endswith", "split", "lstrip", "rstrip", "strip", "splitlines", "format",
-                    "center", "lower", "upper", "replace"):
+                    "center", "lower", "upper", "replace", "removeprefix", "removesuffix", "rsplit", "partition", "rpartition",
+                    "isdigit", "zfill", "ljust", "rjust", "count", "find", "index", "title", "capitalize"):
             return Builtin("str." + name, generic(name))
         return MISSING
     # symbolic string
@@ -933,7 +952,12 @@ def _bytes_method(rt, interp, b, name):
 def _int_method(rt, interp, v, name):
     if name == "to_bytes":
         def to_bytes(i, a, k):
-            if isinstance(v, int) and all(isinstance(x, (int, str)) for x in a):
+            # (arguments by position or by keyword: one spelling for the models behind)
+            k = dict(k)
+            a = [a[0] if a else k.pop("length", 1), a[1] if len(a) > 1 else k.pop("byteorder", "big")]
+            k.pop("length", None)
+            k.pop("byteorder", None)
+            if isinstance(v, int) and all(isinstance(x, (int, str)) for x in a) and all(isinstance(x, bool) for x in k.values()):
                 try:
                     return v.to_bytes(*a, **k)
                 except OverflowError as exc:
@@ -961,6 +985,8 @@ def _int_method(rt, interp, v, name):
 
 
 def native_getattr(rt, interp, obj, name):
+    if isinstance(obj, NativeCtx):
+        return obj.getattr(interp, name)
     if isinstance(obj, list):
         return _list_method(rt, interp, obj, name)
     if isinstance(obj, PDict):
@@ -984,7 +1010,7 @@ def native_getattr(rt, interp, obj, name):
     if isinstance(obj, TypeObj):
         if obj.name == "int" and name == "from_bytes":
             def from_bytes(i, a, k):
-                data = a[0]
+                data = a[0] if a else k.get("bytes")
                 order_ = a[1] if len(a) > 1 else k.get("byteorder", "big")
                 signed = k.get("signed", False)
                 if isinstance(data, list) and all(isinstance(x, int) for x in data):
@@ -1079,7 +1105,94 @@ class GenCtxMgr:
         self.frame = None
 
 
+class NativeCtx:
+    """contextlib.suppress / nullcontext / ExitStack"""
+
+    def __init__(self, kind, classes=None, value=None):
+        self.kind, self.classes, self.value = kind, classes or [], value
+        self.callbacks = []          # ExitStack: (kind, callable / manager, args, kwargs), run last-in first-out
+
+    def getattr(self, interp, name):
+        if self.kind != "ExitStack":
+            return MISSING
+        if name == "callback":
+            def callback(i, a, k):
+                self.callbacks.append(("callback", a[0], list(a[1:]), dict(k)))
+                return a[0]
+            return Builtin("ExitStack.callback", callback)
+        if name == "enter_context":
+            def enter_context(i, a, k):
+                v = context_enter(i.rt, i, a[0])
+                self.callbacks.append(("manager", a[0], [], {}))
+                return v
+            return Builtin("ExitStack.enter_context", enter_context)
+        if name == "close":
+            return Builtin("ExitStack.close", lambda i, a, k: self.unwind(i, None))
+        return MISSING
+
+    def unwind(self, interp, exc):
+        """True when a registered manager swallowed the exception"""
+        swallowed = False
+        pending = exc
+        while self.callbacks:
+            kind, fn, a, k = self.callbacks.pop()
+            try:
+                if kind == "callback":
+                    interp.call(fn, a, k)
+                elif context_exit(interp.rt, interp, fn, pending) is True:
+                    swallowed, pending = True, None
+            except PyExc as pe:
+                pending, swallowed = pe.obj, False
+        if pending is not None and pending is not exc:
+            raise PyExc(pending)
+        return swallowed
+
+
+class CachedProperty:
+    def __init__(self, fget):
+        self.fget = fget
+
+
+def operator_model():
+    import ast as _ast
+    def getter(kind):
+        def make(i, a, k):
+            names = list(a)
+
+            def one(i2, obj, nm):
+                if kind == "attr":
+                    v = obj
+                    for part in nm.split("."):
+                        v = i2.rt.getattr(i2, v, part)
+                    return v
+                return i2.rt.getitem(i2, obj, nm)
+
+            def call(i2, a2, k2):
+                if len(names) == 1:
+                    return one(i2, a2[0], names[0])
+                return tuple(one(i2, a2[0], nm) for nm in names)
+            return Builtin("operator.%sgetter%r" % (kind, tuple(names)), call)
+        return make
+    ops = {"add": _ast.Add(), "sub": _ast.Sub(), "mul": _ast.Mult(), "or_": _ast.BitOr(), "and_": _ast.BitAnd(), "xor": _ast.BitXor(),
+           "floordiv": _ast.FloorDiv(), "mod": _ast.Mod(), "lshift": _ast.LShift(), "rshift": _ast.RShift()}
+    cmps = {"eq": _ast.Eq(), "ne": _ast.NotEq(), "lt": _ast.Lt(), "le": _ast.LtE(), "gt": _ast.Gt(), "ge": _ast.GtE(),
+            "is_": _ast.Is(), "is_not": _ast.IsNot(), "contains": None}
+    m = {"attrgetter": Builtin("operator.attrgetter", getter("attr")), "itemgetter": Builtin("operator.itemgetter", getter("item"))}
+    for name, op in ops.items():
+        m[name] = Builtin("operator." + name, lambda i, a, k, op=op: i.binop(op, a[0], a[1]))
+    for name, op in cmps.items():
+        if op is not None:
+            m[name] = Builtin("operator." + name, lambda i, a, k, op=op: i.compare(op, a[0], a[1]))
+    m["contains"] = Builtin("operator.contains", lambda i, a, k: i.rt.contains(i, a[0], a[1]))
+    m["not_"] = Builtin("operator.not_", lambda i, a, k: Not(i.truth(a[0])))
+    m["truth"] = Builtin("operator.truth", lambda i, a, k: i.truth(a[0]))
+    m["getitem"] = Builtin("operator.getitem", lambda i, a, k: i.rt.getitem(i, a[0], a[1]))
+    return m
+
+
 def context_enter(rt, interp, mgr):
+    if isinstance(mgr, NativeCtx):
+        return mgr if mgr.kind == "ExitStack" else mgr.value
     if isinstance(mgr, GenCtxMgr):
         return rt.ctxmgr_enter(interp, mgr)
     if isinstance(mgr, Opaque) or mgr is None:
@@ -1093,6 +1206,12 @@ def context_enter(rt, interp, mgr):
 
 def context_exit(rt, interp, mgr, exc):
     """returns True when the manager swallows the exception"""
+    if isinstance(mgr, NativeCtx):
+        if mgr.kind == "suppress":
+            return exc is not None and any(interp.truth(isinstance_sym(rt, interp, exc, c)) for c in mgr.classes)
+        if mgr.kind == "ExitStack":
+            return mgr.unwind(interp, exc)
+        return None
     if isinstance(mgr, GenCtxMgr):
         return rt.ctxmgr_exit(interp, mgr, exc)
     if isinstance(mgr, Obj):
@@ -1144,15 +1263,63 @@ def install(rt):
     N["typing"] = {"cast": Builtin("cast", lambda i, a, k: a[1]), "TYPE_CHECKING": False,
                    "NamedTuple": Opaque("NamedTuple")}
     N["typing_extensions"] = {}
-    N["dataclasses"] = {"replace": Builtin("dataclasses.replace", _replace),
+    def _dc_obj(i, a, what):
+        o = a[0]
+        if isinstance(o, PyClass) and o.kind == "dataclass":
+            return o, None
+        if isinstance(o, Obj) and o.cls.kind == "dataclass":
+            return o.cls, o
+        i.raise_py("TypeError", "%s() should be called on dataclass instances" % what)
+
+    def _dc_fields(i, a, k):
+        cls, _o = _dc_obj(i, a, "fields")
+        fcls = PyClass("dataclasses.Field", [], kind="builtin")
+        return tuple(Obj(fcls, {"name": f, "default": cls.field_defaults.get(f)}) for f in cls.fields)
+
+    def _dc_asdict(i, a, k):
+        cls, o = _dc_obj(i, a, "asdict")
+        if o is None or any(isinstance(v, (Obj, list, PDict, dict)) for v in o.fields.values()):
+            raise Undecided("dataclasses.asdict on nested values (deep copy)")
+        return PDict([(f, o.fields.get(f)) for f in cls.fields])
+
+    def _dc_astuple(i, a, k):
+        cls, o = _dc_obj(i, a, "astuple")
+        if o is None or any(isinstance(v, (Obj, list, PDict, dict)) and not (isinstance(v, Obj) and v.cls.kind != "dataclass")
+                            for v in o.fields.values()):
+            raise Undecided("dataclasses.astuple on nested values (deep copy)")
+        if any(isinstance(v, Obj) for v in o.fields.values()):
+            raise Undecided("dataclasses.astuple copies non-dataclass members (copy.deepcopy)")
+        return tuple(o.fields.get(f) for f in cls.fields)
+    N["dataclasses"] = {"fields": Builtin("dataclasses.fields", _dc_fields), "asdict": Builtin("dataclasses.asdict", _dc_asdict),
+                        "astuple": Builtin("dataclasses.astuple", _dc_astuple),
+                        "replace": Builtin("dataclasses.replace", _replace),
                         "dataclass": Builtin("dataclass", lambda i, a, k: a[0] if a else Builtin("dc", lambda i2, a2, k2: a2[0]))}
     N["collections"] = {"OrderedDict": Builtin("OrderedDict", _ordered_dict)}
     def _partial(i, a, k):
         fn, pre, prek = a[0], list(a[1:]), dict(k)
         return Builtin("partial(%r)" % (fn,), lambda i2, a2, k2: i2.call(fn, pre + list(a2), dict(prek, **k2)))
+    def _reduce(i, a, k):
+        items = i.iterate(a[1])
+        if len(a) > 2:
+            acc = a[2]
+        elif items:
+            acc, items = items[0], items[1:]
+        else:
+            i.raise_py("TypeError", "reduce() of empty iterable with no initial value")
+        for x in items:
+            acc = i.call(a[0], [acc, x], {})
+        return acc
     N["functools"] = {"lru_cache": Builtin("lru_cache", lambda i, a, k: Builtin("lru", lambda i2, a2, k2: a2[0])),
-                      "partial": Builtin("partial", _partial)}
-    N["contextlib"] = {"contextmanager": Builtin("contextmanager", lambda i, a, k: a[0])}
+                      # (functools.cache like lru_cache: the function is executed on every call - same results for the pure
+                      #  functions it is meant for, and a function with effects shows them more often, never less)
+                      "cache": Builtin("cache", lambda i, a, k: a[0]),
+                      "partial": Builtin("partial", _partial), "reduce": Builtin("reduce", _reduce),
+                      "cached_property": Builtin("cached_property", lambda i, a, k: CachedProperty(a[0]))}
+    N["contextlib"] = {"contextmanager": Builtin("contextmanager", lambda i, a, k: a[0]),
+                       "suppress": Builtin("suppress", lambda i, a, k: NativeCtx("suppress", classes=list(a))),
+                       "nullcontext": Builtin("nullcontext", lambda i, a, k: NativeCtx("nullcontext", value=a[0] if a else None)),
+                       "ExitStack": Builtin("ExitStack", lambda i, a, k: NativeCtx("ExitStack"))}
+    N["operator"] = operator_model()
     N["logging"] = {"getLogger": Builtin("getLogger", lambda i, a, k: Opaque("logger")), "DEBUG": 10}
     N["warnings"] = {"warn": Builtin("warn", lambda i, a, k: None)}
     N["threading"] = {"Lock": Builtin("Lock", lambda i, a, k: Opaque("lock"))}
